@@ -340,6 +340,8 @@ def _build_evaluator_iterative(
         VectorSum,
         VectorVariable,
         VectorExpressionSum,
+        VectorPowerSum,
+        VectorUnarySum,
     )
     from optyx.core.matrices import QuadraticForm
 
@@ -398,6 +400,24 @@ def _build_evaluator_iterative(
         if isinstance(node, VectorSum):
             indices = np.array([var_indices[v.name] for v in node.vector._variables])
             result_stack.append(lambda x, idx=indices: np.sum(x[idx]))
+            continue
+
+        if isinstance(node, VectorPowerSum):
+            # sum(x ** k), as in the recursive builder
+            indices = np.array([var_indices[v.name] for v in node.vector._variables])
+            power = node.power
+            result_stack.append(
+                lambda x, idx=indices, k=power: float(np.sum(x[idx] ** k))
+            )
+            continue
+
+        if isinstance(node, VectorUnarySum):
+            # sum(f(x)), as in the recursive builder
+            indices = np.array([var_indices[v.name] for v in node.vector._variables])
+            numpy_func = VectorUnarySum._NUMPY_FUNCS[node.op]
+            result_stack.append(
+                lambda x, idx=indices, f=numpy_func: float(np.sum(f(x[idx])))
+            )
             continue
 
         if isinstance(node, VectorExpressionSum):
